@@ -1,8 +1,11 @@
 import WuffsVerif.Common.Line
 import WuffsVerif.Model.Token
+import WuffsVerif.Model.Parse
 /-! Line driver for C11 (lang/token, lang/parse).  Ops:
   tok <hex>          -> ok n=<tokens> u=<user names> c=<comments> h=<fnv1a-64> [t=id:line,…]  |  err <class> <line|->
-(the same canonical line harness/cmd/c11/tie.go renders from token.Tokenize's answer).
+  parse <du> <hex>   -> ok n=<dump length> h=<fnv1a-64 of the AST dump> [d=…]  |  err <line|->  |  notok
+(the same canonical lines harness/cmd/c11/tie.go renders from token.Tokenize's / parse.Parse's
+answers; <du> = Options.AllowDoubleUnderscoreNames).
 -/
 open WuffsVerif WuffsVerif.Line WuffsVerif.Token
 
@@ -51,8 +54,27 @@ def tokLine (src : ByteArray) : String :=
       s ++ " t=" ++ ",".intercalate (st.toks.toList.map (fun t => s!"{t.id}:{t.line}"))
     else s
 
+def parseLine (du : Bool) (src : ByteArray) : String :=
+  match tokenize src with
+  | .error _ => "notok"
+  | .ok st =>
+    let env : Parse.Env := { tm := st.m, opts := { allowDoubleUnderscoreNames := du } }
+    match Parse.parseFile env st.toks.toList with
+    | .error (.at l) => s!"err {l}"
+    | .error .internal => "err -"
+    | .error .stuck => "stuck"
+    | .ok file =>
+      let dump := Parse.dumpNode 1000000000 file #[]
+      let h := dump.foldl fnvU32 fnvInit
+      let s := s!"ok n={dump.size} h={hex16 h}"
+      if dump.size ≤ 400 then s ++ " d=" ++ ",".intercalate (dump.toList.map toString) else s
+
 def step (l : List String) : String :=
   match l with
+  | ["parse", du, hex] =>
+    match fromHexArr hex with
+    | some src => parseLine (du == "1") src
+    | none => "bad-op"
   | ["tok", hex] =>
     match fromHexArr hex with
     | some src => tokLine src
